@@ -4,8 +4,12 @@ int verif_exc; C14_GHOSTS
 uint8_t g_cval; char* g_vsv_buf; size_t g_vsv_cap; size_t g_it_next, g_it_prefix;
 #include "x_read_all.c"
 
-#ifdef VERIF_SMALL
+/* VERIF_SMALL / VERIF_SMALL_LINE: only used when the verifier is asked again for a counterexample that can be replayed
+ * natively (and by the bounded fallback); never in the verdict run */
+#if defined(VERIF_SMALL)
 #define SMALL __CPROVER_assume(in_src_len <= 40000)
+#elif defined(VERIF_SMALL_LINE)
+#define SMALL __CPROVER_assume(in_src_len <= 700)
 #else
 #define SMALL
 #endif
